@@ -190,10 +190,26 @@ func vTrafficRoutings() []v1beta1.TrafficRoutingRef {
 	return []v1beta1.TrafficRoutingRef{{Service: "svc", Ingress: &v1beta1.IngressTrafficRouting{Name: "ing"}, GracePeriodSeconds: 3}}
 }
 
+// vKindChoice makes the workload kind a harness choice (Deployment / CloneSet / StatefulSet) when set.
+var vKindChoice = false
+
+func vWorkloadRef(def v1beta1.ObjectRef) v1beta1.ObjectRef {
+	if !vKindChoice {
+		return def
+	}
+	switch verifrt.IntRange("workloadKind", 0, 2) {
+	case 0:
+		return v1beta1.ObjectRef{APIVersion: "apps/v1", Kind: "Deployment", Name: "w"}
+	case 1:
+		return v1beta1.ObjectRef{APIVersion: "apps.kruise.io/v1alpha1", Kind: "CloneSet", Name: "w"}
+	}
+	return v1beta1.ObjectRef{APIVersion: "apps/v1", Kind: "StatefulSet", Name: "w"}
+}
+
 // vCanaryRollout: canary strategy (partition or canary style), nSteps steps.
 func vCanaryRollout(n int, cur int) *v1beta1.Rollout {
 	r := &v1beta1.Rollout{ObjectMeta: metav1.ObjectMeta{Namespace: "ns", Name: "ro", UID: "ro-uid", Annotations: map[string]string{util.RolloutHashAnnotation: "hash-1"}}}
-	r.Spec.WorkloadRef = v1beta1.ObjectRef{APIVersion: "apps.kruise.io/v1alpha1", Kind: "CloneSet", Name: "w"}
+	r.Spec.WorkloadRef = vWorkloadRef(v1beta1.ObjectRef{APIVersion: "apps.kruise.io/v1alpha1", Kind: "CloneSet", Name: "w"})
 	r.Spec.Strategy.Canary = &v1beta1.CanaryStrategy{Steps: vSteps(n, cur-1), TrafficRoutings: vTrafficRoutings()}
 	r.Spec.Strategy.Canary.EnableExtraWorkloadForCanary = verifrt.Bool("enableExtraWorkload")
 	cond := v1beta1.RolloutCondition{Type: v1beta1.RolloutConditionProgressing, Status: corev1.ConditionTrue, Reason: v1alpha1.ProgressingReasonInRolling, LastUpdateTime: *vAgo("cond.lastUpdateAgo")}
@@ -205,7 +221,7 @@ func vCanaryRollout(n int, cur int) *v1beta1.Rollout {
 
 func vBlueGreenRollout(n int, cur int) *v1beta1.Rollout {
 	r := &v1beta1.Rollout{ObjectMeta: metav1.ObjectMeta{Namespace: "ns", Name: "ro", UID: "ro-uid", Annotations: map[string]string{util.RolloutHashAnnotation: "hash-1"}}}
-	r.Spec.WorkloadRef = v1beta1.ObjectRef{APIVersion: "apps/v1", Kind: "Deployment", Name: "w"}
+	r.Spec.WorkloadRef = vWorkloadRef(v1beta1.ObjectRef{APIVersion: "apps/v1", Kind: "Deployment", Name: "w"})
 	r.Spec.Strategy.BlueGreen = &v1beta1.BlueGreenStrategy{Steps: vSteps(n, cur-1), TrafficRoutings: vTrafficRoutings()}
 	cond := v1beta1.RolloutCondition{Type: v1beta1.RolloutConditionProgressing, Status: corev1.ConditionTrue, Reason: v1alpha1.ProgressingReasonInRolling, LastUpdateTime: *vAgo("cond.lastUpdateAgo")}
 	r.Status.Conditions = []v1beta1.RolloutCondition{cond}
